@@ -263,6 +263,21 @@ class Check:
         self.obligations += obl
         self.problems += problems
         self.checker_cmd = cmd
+        if self.tier == 'thorough' and not problems:
+            # independent re-check of the compiled proofs (all modules the property's theorems depend on)
+            mods = ['MpsVerif.' + f[:-5].replace('/', '.') for f in props_files]
+            env = dict(os.environ)
+            env['LEAN_PATH'] = f"{LEAN / '.lake' / 'build' / 'lib' / 'lean'}:/opt/veriftools/lean-4.33.0-linux/lib/lean"
+            try:
+                p = subprocess.run(['leanchecker'] + mods, cwd=LEAN, capture_output=True, text=True, timeout=1800, env=env)
+                ok = p.returncode == 0
+                msg = (p.stdout + p.stderr)[-800:]
+            except Exception as e:  # noqa
+                ok, msg = False, repr(e)
+            self.add_obligation('leanchecker', 'leanchecker ' + ' '.join(mods), ok)
+            if not ok:
+                self.problems.append('leanchecker failed: ' + msg)
+            self.checker_cmd += '; leanchecker ' + ' '.join(mods)
         return not problems
 
     def add_obligation(self, kind, name, discharged, **kw):
